@@ -49,6 +49,9 @@ struct Script {
     states: Vec<Option<Vec<u8>>>,
     faults: Vec<PageFault>,
     prepared: bool,
+    /// prepared only: the statement asks the node to leave the result metadata out of every page
+    /// (`set_use_cached_result_metadata`), the node answers NO_METADATA pages like a server does
+    cached_md: bool,
     idempotent: bool,
     fallthrough: bool,
     /// 0 fast, 1 slow consumer, 2 drops the stream after `drop_after` rows
@@ -154,7 +157,12 @@ impl Handler for Pager {
         let rows: Vec<Row> = script.pages[idx].iter().map(|n| vec![Some(n.to_be_bytes().to_vec())]).collect();
         let ps = script.states[idx].clone();
         let is_last = ps.is_none();
-        let metadata = ResultMetadata { columns: paged_cols(), paging_state: ps, no_metadata: false, global_spec: true, new_metadata_id: None };
+        // like a server: a request carrying the skip-metadata flag gets NO_METADATA pages (column count, no specs)
+        let skip = match &*rq.request {
+            Request::Query { params, .. } | Request::Execute { params, .. } => params.skip_metadata,
+            _ => false,
+        };
+        let metadata = ResultMetadata { columns: paged_cols(), paging_state: ps, no_metadata: skip, global_spec: true, new_metadata_id: None };
         let resp = Response::Result(ResultBody::Rows { metadata, rows });
         match fault {
             PageFault::RetryableError if attempt == 0 => {
@@ -307,6 +315,7 @@ fn gen_script(rng: &mut Rng, qid: u64, exhaustive_fault: Option<(usize, PageFaul
         states,
         faults,
         prepared: rng.bool(),
+        cached_md: rng.chance(1, 3),
         idempotent: rng.bool(),
         fallthrough: rng.chance(1, 4),
         consumer,
@@ -366,6 +375,7 @@ async fn run_script(s: Arc<Script>) -> ScriptOut {
                 Err(e) => return Err(format!("prepare: {e}")),
                 Ok(mut p) => {
                     p.set_page_size(s.page_size);
+                    p.set_use_cached_result_metadata(s.cached_md);
                     p.set_is_idempotent(s.idempotent);
                     if downgrading {
                         p.set_consistency(scylla::statement::Consistency::Quorum);
@@ -431,7 +441,7 @@ async fn run_script(s: Arc<Script>) -> ScriptOut {
 
 fn judge(o: &mut Outcome, s: &Script, r: &ScriptOut) {
     let replay = json!({"script": {"qid": s.qid, "pages": s.pages, "states": s.states.iter().map(|x| x.as_ref().map(|b| fw::hex(b))).collect::<Vec<_>>(),
-        "faults": s.faults.iter().map(|f| format!("{f:?}")).collect::<Vec<_>>(), "prepared": s.prepared, "idempotent": s.idempotent, "fallthrough": s.fallthrough,
+        "faults": s.faults.iter().map(|f| format!("{f:?}")).collect::<Vec<_>>(), "prepared": s.prepared, "cached_md": s.cached_md, "idempotent": s.idempotent, "fallthrough": s.fallthrough,
         "consumer": s.consumer, "drop_after": s.drop_after, "page_size": s.page_size},
         "delivered": r.delivered, "error": r.error, "requested": r.requested});
     if let Some(e) = &r.build_error {
@@ -439,7 +449,7 @@ fn judge(o: &mut Outcome, s: &Script, r: &ScriptOut) {
         return;
     }
     let all: Vec<i64> = s.pages.iter().flatten().copied().collect();
-    let key = fw::hash64(format!("{:?}{:?}{:?}{}{}{}{}", s.pages.iter().map(|p| p.len()).collect::<Vec<_>>(), s.faults, s.states.iter().map(|x| x.as_ref().map(|b| b.len())).collect::<Vec<_>>(), s.prepared, s.idempotent, s.fallthrough, s.consumer).as_bytes());
+    let key = fw::hash64(format!("{:?}{:?}{:?}{}{}{}{}", s.pages.iter().map(|p| p.len()).collect::<Vec<_>>(), s.faults, s.states.iter().map(|x| x.as_ref().map(|b| b.len())).collect::<Vec<_>>(), s.prepared, s.idempotent, s.fallthrough, s.consumer + 10 * (s.prepared && s.cached_md) as u8).as_bytes());
     o.case(key, s.pages.len() > 1 || !all.is_empty());
     if s.states.windows(2).any(|w| w[0].is_some() && w[0] == w[1]) {
         o.class("paging-state:same-bytes-on-consecutive-pages");
@@ -451,6 +461,9 @@ fn judge(o: &mut Outcome, s: &Script, r: &ScriptOut) {
         o.class(&format!("fault:{f:?}"));
     }
     o.class(if s.prepared { "pager:execute_iter" } else { "pager:query_iter" });
+    if s.prepared && s.cached_md {
+        o.class("pager:execute_iter:cached-result-metadata(NO_METADATA pages)");
+    }
     o.class(&format!("consumer:{}", ["fast", "slow", "early-drop"][s.consumer as usize]));
     if s.pages.iter().any(|p| p.is_empty()) {
         o.class("page:empty");
@@ -801,6 +814,7 @@ pub fn run(ctx: &Ctx) -> Outcome {
             states: r["states"].as_array().map(|a| a.iter().map(|s| s.as_str().map(fw::unhex)).collect()).unwrap_or_default(),
             faults: r["faults"].as_array().map(|a| a.iter().map(|f| parse_fault(f.as_str().unwrap_or(""))).collect()).unwrap_or_default(),
             prepared: r["prepared"].as_bool().unwrap_or(false),
+            cached_md: r["cached_md"].as_bool().unwrap_or(false),
             idempotent: r["idempotent"].as_bool().unwrap_or(false),
             fallthrough: r["fallthrough"].as_bool().unwrap_or(false),
             consumer: r["consumer"].as_u64().unwrap_or(0) as u8,
@@ -881,6 +895,7 @@ pub fn run(ctx: &Ctx) -> Outcome {
         "fault:late-answer-after-client-timeout",
         "late-answer:other-stream-undisturbed",
         "pager:execute_iter",
+        "pager:execute_iter:cached-result-metadata(NO_METADATA pages)",
         "pager:query_iter",
         "pager:control-connection",
         "pager:control-connection:empty-pages-with-paging-state",
